@@ -1,9 +1,49 @@
 import PyamgV.Driver.Util
-/-! Driver ops of extension task E28 (op names prefixed `ext_`). -/
+import PyamgV.Model.ExtC14Energy
+import PyamgV.Model.ExtC14Evol
+/-! Driver ops of extension task E28 (property C14; op names prefixed `ext_c14_`): the whole of
+`energy_based_strength_of_connection` and of `evolution_strength_of_connection` (`NullDim == 1`, `k = 2^(m+1)`)
+for canonical real CSR input.  They run the definitions `energyFull` / `evolFull` (and their stages) that
+`Props/C14.lean` is about. -/
 namespace PyamgV.Drv.ExtE28
-open PyamgV PyamgV.Drv
+open PyamgV PyamgV.Drv PyamgV.N PyamgV.C14
+
+def mk (n ap aj ax : String) : List Row := rowsOf ⟨nat n, parseNats ap, parseNats aj, parseRats ax⟩
+
+def showRows (rows : List Row) : String :=
+  let (sp, sj, sx) := rowsToOut rows
+  showNats sp ++ ";" ++ showNats sj ++ ";" ++ showRats sx
 
 def handle : List String → Option String
+  | ["ext_c14_energy", omega, neg, tiny, th, k, n, ap, aj, ax] =>
+    -- reply: measure | result | per row `<v,Av>` | per row sum of |terms| of `<v,Av>` (conditioning of the denominator)
+    let rows := mk n ap aj ax
+    let n := rows.length
+    let A := dense n rows
+    let S := enS n (parseRat omega) A (nat k + 1)
+    some <| if enDefined n A S rows then
+      let sq := sqrtApprox 80
+      let den := (List.range n).map fun i => enQuad n A (enCol S i none)
+      let aden := (List.range n).map fun i =>
+        sumR n fun r => sumR n fun c => absQ (enCol S i none r * mget A r c * enCol S i none c)
+      showRows (enMeasure sq (parseRat neg) n A S rows) ++ "|" ++
+        showRows (energyFull sq (parseRat omega) (parseRat neg) (parseRat tiny) (parseRat th) (nat k) rows) ++ "|" ++
+        showRats den.toArray ++ "|" ++ showRats aden.toArray
+    else "undefined"
+  | ["ext_c14_evol", big, tiny, eps, wk, sqe, perf, c, m, symm, b, n, ap, aj, ax] =>
+    -- reply: Atilde after incomplete_mat_mult_csr + eliminate_zeros | measure at the filter | result
+    let rows := mk n ap aj ax
+    let b := parseRats b
+    some <| showRows (evAtilde (parseRat c) (nat m) rows) ++ "|" ++
+      showRows (evMeasure (parseRat wk) (parseRat sqe) (parseRat perf) (parseRat c) (nat m) b rows) ++ "|" ++
+      showRows (evolFull (parseRat big) (parseRat tiny) (parseRat eps) (parseRat wk) (parseRat sqe) (parseRat perf)
+        (parseRat c) (nat m) (symm = "1") b rows)
+  | ["ext_c14_sqrt", p, q] => some <| showRat (sqrtApprox (nat p) (parseRat q))
+  | ["ext_c14_inner", na, aj, ax, nb, bj, bx] =>
+    -- `my_inner` on one sparse row and one sparse column
+    let a := (List.range (nat na)).map fun t => (rdN (parseNats aj) t, rdQ (parseRats ax) t)
+    let b := (List.range (nat nb)).map fun t => (rdN (parseNats bj) t, rdQ (parseRats bx) t)
+    some <| showRat (myInner a b)
   | _ => none
 
 end PyamgV.Drv.ExtE28
